@@ -12,7 +12,8 @@ from harness.checks import lifelib as L
 
 C09_KINDS = ['plain', 'body', 'form', 'raise', 'nf', 'm405', 'crash', 'json404', 'hdrs', 'badpath', 'badchunk', 'oversize',
              'badchunk_json', 'oversize_json', 'mutq', 'latin', 'badmp_json', 'signed', 'forged', 'stat_s', 'stat_n', 'bigbody', 'rewrite', 'tenant', 'whoami', 'lazy', 'delc_opts', 'delc_plain',
-             'upload_ct', 'upload_bare', 'crashform', 'account', 'about', 'mount', 'stream', 'chunked', 'badcl']
+             'upload_ct', 'upload_bare', 'crashform', 'account', 'about', 'mount', 'stream', 'chunked', 'badcl', 'mprep',
+             'sfile', 'sfile_range', 'sfile_head']
 C09_CONFIG = {'max_body_size': 1000, 'max_memfile_size': 128}
 
 
@@ -151,7 +152,7 @@ def run_c08(chk):
     # real threads under forced schedules
     traces = []
     # references: each (kind, client) served by a fresh application in an interpreter that has served nothing else
-    solos = L.reference_table(sorted(set(kinds) | {'badchunk_json', 'oversize_json', 'badchunk', 'm405'}), ['A', 'B', 'C'])
+    solos = L.reference_table(sorted(set(kinds) | {'badchunk_json', 'oversize_json', 'badchunk', 'm405', 'mpfrag'}), ['A', 'B', 'C'])
 
     def solo(k, n):
         if (k, n) not in solos:
@@ -214,7 +215,7 @@ def run_c08(chk):
             execute(reqs, [0] * a + [1] * b + [0] * 5000, line_files=lf, tag='line')
         # twins: two clients sending the same kind of request (same error object, same cached parse, same route) with
         # different data; the second is served completely at a swept pre-emption point of the first
-        twin_kinds = list(kinds) + ['badchunk_json', 'oversize_json', 'badchunk', 'm405']
+        twin_kinds = list(kinds) + ['badchunk_json', 'oversize_json', 'badchunk', 'm405', 'mpfrag']
         for k in twin_kinds:
             reqs = [(k, 'A'), (k, 'B')]
             tr0 = execute(reqs, [0] * 5000, line_files=lf, tag='twin')
@@ -223,7 +224,11 @@ def run_c08(chk):
                 _, _, taken0 = L.run_threads([app, app], reqs, [0] * 5000, acc if acc.ok else None, lf)
                 n0 = sum(1 for t in taken0 if t == 0)
             fine = k in ('rewrite', 'tenant', 'lazy', 'chunked')       # short critical windows (listener dispatch, tenant lookup): sweep every other line
-            for a in range(1, n0 + 1, (1 if fine else 3) if thorough else (2 if fine else max(1, n0 // 36))):
+            if k == 'mpfrag':
+                stepk = 5 if thorough else max(1, n0 // 90)      # a long parse (dozens of reads): sampled densely enough to land between any two reads
+            else:
+                stepk = (1 if fine else 3) if thorough else (2 if fine else max(1, n0 // 36))
+            for a in range(1, n0 + 1, stepk):
                 execute(reqs, [0] * a + [1] * 5000 + [0] * 5000, line_files=lf, tag='twin')
         # cold start: the first error pages of a freshly started process, produced concurrently (module-level things that are
         # loaded on first use are loaded while another thread is already asking for them)
@@ -298,15 +303,19 @@ def run_c09(chk):
     acc = L.Accessors()
     app = L.make_app(C09_CONFIG)
     kinds = C09_KINDS
+    # static_file() reads the request through ombott's module-level default objects (Globals.request), i.e. through ANOTHER
+    # instance that is shown this request's state by design: accessor traces keyed by object cannot express that, so the
+    # static kinds are judged on their responses only
+    mkinds = [k for k in kinds if not k.startswith('sfile')]
     progs = {}
     b0 = None
-    for k in kinds:
+    for k in mkinds:
         ops, b0, _ = record_program(acc, [app], {'a': app}, [(k, 'A')])
         progs[k] = ops
     # design level: every history of length <= 2 (quick) / 3 (thorough) of request kinds on one thread
-    hist = [[a] for a in kinds] + [[a, b] for a in kinds for b in kinds]
+    hist = [[a] for a in mkinds] + [[a, b] for a in mkinds for b in mkinds]
     if thorough:
-        hist += [[a, b, c] for a in kinds for b in kinds for c in kinds]
+        hist += [[a, b, c] for a in mkinds for b in mkinds for c in mkinds]
     r, ok = mc(chk, 'C09 sequential histories', 1, hist, progs, b0)
     model_bad = None
     if not ok:
@@ -325,7 +334,7 @@ def run_c09(chk):
     def execute(h):
         names = ['R%d%s' % (i, 'x' * (i % 4)) for i in range(len(h))]
         seq = [(k, names[i]) for i, k in enumerate(h)]
-        res, tr, _ = L.run_threads([app], [seq], [], acc if acc.ok else None)
+        res, tr, _ = L.run_threads([app], [seq], [], acc if acc.ok and not any(k.startswith('sfile') for k in h) else None)
         tr['resp_ok'] = [res[0][i] == solo(*seq[i]) for i in range(len(seq))]
         tr['reqs'] = seq
         tr['sched'] = []
@@ -752,11 +761,12 @@ def run_c10(chk):
     # the first: the error objects of the default errors_map are shared by every application of the process
     lf = (os.path.join(core.REPO, 'ombott'),)
     a, b = fresh_apps()
-    for k in ('badmp_json', 'badchunk_json', 'json404', 'oversize_json'):
+    for k in ('badmp_json', 'badchunk_json', 'json404', 'oversize_json', 'chunked'):
         reqs = [(k, 'A'), (k, 'B')]
         _, _, taken0 = L.run_threads([a, b], reqs, [0] * 5000, acc if acc.ok else None, lf)
         n0 = sum(1 for t in taken0 if t == 0)
-        for x in range(1, n0 + 1, 3 if thorough else max(1, n0 // 30)):
+        fine = k == 'chunked'        # the windows between two reads of one size line are a line or two wide
+        for x in range(1, n0 + 1, (1 if fine else 3) if thorough else (2 if fine else max(1, n0 // 30))):
             res, tr, taken = L.run_threads([a, b], reqs, [0] * x + [1] * 5000 + [0] * 5000, acc if acc.ok else None, lf)
             chk.count(1, ('two_apps_lines', k, x))
             ok = [res[0] == solo(k, 'A'), res[1] == solo(k, 'B')]
